@@ -301,6 +301,34 @@ def rule_R2(text, applied):
     return t
 
 
+def rule_R2ref(text, applied):
+    """a whole chain `E.get_unchecked(A)[.get_unchecked(B)]` used as a reference -> `(&E[A][B])`."""
+    cnt = 0
+    while True:
+        m_text = mask(text)
+        m = re.search(r"\.\s*get_unchecked\s*\(", m_text)
+        if not m:
+            break
+        start = _receiver_start(m_text, m.start())
+        recv = text[start:m.start()]
+        idxs = []
+        k = m.start()
+        while True:
+            mm = re.match(r"\s*\.\s*get_unchecked\s*\(", m_text[k:])
+            if not mm:
+                break
+            op = k + mm.end() - 1
+            cp = match_close(m_text, op)
+            idxs.append(text[op + 1:cp].strip())
+            k = cp + 1
+        new = "(&" + recv.strip() + "".join(f"[{i}]" for i in idxs) + ")"
+        text = text[:start] + _keep_newlines(text[start:k], new) + text[k:]
+        cnt += 1
+    if cnt:
+        applied.append(f"R2refx{cnt}")
+    return text
+
+
 def rule_R3(text, applied):
     cnt = 0
     for mac, op in (("debug_assert_eq", "=="), ("debug_assert_ne", "!="), ("assert_eq", "=="), ("assert_ne", "!=")):
@@ -639,10 +667,14 @@ def rule_R8rotate(text, applied):
     """`X[A..=B].rotate_right(K)` / `X[A..B].rotate_right(K)` / rotate_left -> `vrotate_right(&mut X, A, B(+1), K)`
     (trusted helper with the documented behaviour of slice::rotate_* on the sub-slice, including its panics)."""
     def rep(m, s):
+        lo = m.group(2).strip() or "0"
         hi = m.group(4).strip()
-        hi = f"({hi}) + 1" if m.group(3) == "..=" else hi
-        return f"vrotate_{m.group(5)}(&mut {m.group(1)}, {m.group(2).strip()}, {hi}, {m.group(6).strip()})"
-    t, n = _sub_masked(text, r"([\w\.]+?)\[([^\]\.]+?)(\.\.=?)([^\]]+?)\]\s*\.\s*rotate_(right|left)\(([^\)]+)\)", rep)
+        if not hi:
+            hi = f"{m.group(1)}.len()"
+        elif m.group(3) == "..=":
+            hi = f"({hi}) + 1"
+        return f"vrotate_{m.group(5)}(&mut {m.group(1)}, {lo}, {hi}, {m.group(6).strip()})"
+    t, n = _sub_masked(text, r"([\w\.]+?)\[([^\]\.]*?)(\.\.=?)([^\]]*?)\]\s*\.\s*rotate_(right|left)\(([^\)]+)\)", rep)
     if n:
         applied.append(f"R8rotatex{n}")
     return t
@@ -714,6 +746,96 @@ def rule_R8collectid(text, applied):
     return t
 
 
+def rule_R12cell(text, applied, arg=None):
+    """cell erasure for the insert-only containers (DESIGN 2.3 R12): `UnsafeCell<T>`/`Cell<T>` -> `T`;
+    `c.get()`/`c.set(v)` on the Cell fields named in arg (comma separated `field` list after `cells=`) ->
+    read / assignment; `&mut *self.F.get()` -> `&mut self.F`; `self.F.get()` on UnsafeCell fields (after
+    `unsafe=`) -> `&self.F`; `UnsafeCell::from/new(E)`, `Cell::new(E)` -> `E`; arg `mutself` turns the
+    receiver `&self` into `&mut self`."""
+    args = dict(a.split("=", 1) if "=" in a else (a, "") for a in (arg or "").split(";") if a)
+    cnt = 0
+    # types
+    while True:
+        m_text = mask(text)
+        m = re.search(r"\b(?:UnsafeCell|Cell)\s*<", m_text)
+        if not m:
+            break
+        # matching '>'
+        d, k = 0, m.end() - 1
+        while k < len(m_text):
+            if m_text[k] == "<":
+                d += 1
+            elif m_text[k] == ">" and m_text[k - 1] != "-":
+                d -= 1
+                if d == 0:
+                    break
+            k += 1
+        text = text[:m.start()] + text[m.end():k] + text[k + 1:]
+        cnt += 1
+    # constructors
+    for ctor in (r"UnsafeCell::from", r"UnsafeCell::new", r"Cell::new"):
+        while True:
+            m_text = mask(text)
+            m = re.search(r"\b" + ctor + r"\s*\(", m_text)
+            if not m:
+                break
+            cp = match_close(m_text, m.end() - 1)
+            text = text[:m.start()] + text[m.end():cp] + text[cp + 1:]
+            cnt += 1
+    for f in [x for x in args.get("cells", "").split("+") if x]:
+        t, n1 = _sub_masked(text, r"\b((?:\w+\.)*" + re.escape(f) + r")\.get\(\)", lambda m, s: m.group(1))
+        text = t
+        while True:
+            m_text = mask(text)
+            m = re.search(r"\b((?:\w+\.)*" + re.escape(f) + r")\.set\(", m_text)
+            if not m:
+                break
+            cp = match_close(m_text, m.end() - 1)
+            text = text[:m.start()] + f"{m.group(1)} = " + text[m.end():cp] + text[cp + 1:]
+            cnt += 1
+        cnt += n1
+    for f in [x for x in args.get("unsafe", "").split("+") if x]:
+        t, n1 = _sub_masked(text, r"&mut\s*\*\s*((?:\w+\.)*" + re.escape(f) + r")\.get\(\)", lambda m, s: "&mut " + m.group(1))
+        amp_ = "&mut " if "mutself" in args else "&"
+        t, n2 = _sub_masked(t, r"\b((?:\w+\.)*" + re.escape(f) + r")\.get\(\)", lambda m, s: amp_ + m.group(1))
+        t, n3 = _sub_masked(t, r"\b((?:\w+\.)*" + re.escape(f) + r")\.get_mut\(\)", lambda m, s: "(&mut " + m.group(1) + ")")
+        text = t
+        cnt += n1 + n2 + n3
+    if "mutself" in args:
+        t, n1 = _sub_masked(text, r"\(\s*&self\b", lambda m, s: "(&mut self")
+        text = t
+        cnt += n1
+    applied.append(f"R12cell({arg})x{cnt}")
+    return text
+
+
+def rule_R8resize_veccap(text, applied, arg=None):
+    """`RECV.resize_with(N, || Vec::with_capacity(C))` -> `vresize_with_veccap(&mut RECV, N, C)` (trusted helper:
+    new elements are empty vectors)."""
+    cnt = 0
+    while True:
+        m_text = mask(text)
+        m = re.search(r"((?:[A-Za-z_][A-Za-z0-9_]*\s*\.\s*)*[A-Za-z_][A-Za-z0-9_]*)\s*\.\s*resize_with\s*\(", m_text)
+        if not m:
+            break
+        op = m.end() - 1
+        cp = match_close(m_text, op)
+        inner, inner_m = text[op + 1:cp], m_text[op + 1:cp]
+        parts = split_top_level(inner_m, inner)
+        cm = re.fullmatch(r"\|\|\s*Vec::with_capacity\((.*)\)", parts[1].strip()) if len(parts) == 2 else None
+        if not cm:
+            raise ExtractError("R8resize_veccap: closure is not `|| Vec::with_capacity(C)` (outside the subset)")
+        recv = "".join(text[m.start(1):m.end(1)].split())
+        # arg `deref`: RECV is a `&mut Vec<..>` local (reborrow); a wrong choice does not type-check (=> undecided)
+        amp = "&mut *" if arg == "deref" else "&mut "
+        new = f"{{ let n_ = {parts[0].strip()}; vresize_with_veccap({amp}{recv}, n_, {cm.group(1).strip()}) }}"
+        text = text[:m.start()] + _keep_newlines(text[m.start():cp + 1], new) + text[cp + 1:]
+        cnt += 1
+    if cnt:
+        applied.append(f"R8resize_veccapx{cnt}")
+    return text
+
+
 def rule_subst(text, applied, arg=None):
     """literal type substitution OLD=>NEW inside the item (e.g. `Box<dyn Any>` => an opaque type parameter)."""
     old, new = arg.replace("~", " ").split("=>")
@@ -729,9 +851,9 @@ def rule_const(text, applied):
 
 
 RULES = {
-    "R1": rule_R1, "R2": rule_R2, "R3": rule_R3, "R4": rule_R4, "R5": rule_R5,
+    "R1": rule_R1, "R2": rule_R2, "R2ref": rule_R2ref, "R3": rule_R3, "R4": rule_R4, "R5": rule_R5,
     "R8max": rule_R8max, "R8cmpmax": rule_R8cmpmax, "R8resize_none": rule_R8resize_none, "R9": rule_R9, "R8position": rule_R8position, "R8rotate": rule_R8rotate, "R12refcell": rule_R12refcell,
-    "R8slice": rule_R8slice, "R7iter": rule_R7iter, "R8bitget": rule_R8bitget, "R8collectid": rule_R8collectid, "R8index": rule_R8index, "subst": rule_subst,
+    "R8slice": rule_R8slice, "R7iter": rule_R7iter, "R8bitget": rule_R8bitget, "R12cell": rule_R12cell, "R8resize_veccap": rule_R8resize_veccap, "R8collectid": rule_R8collectid, "R8index": rule_R8index, "subst": rule_subst,
     "R13": rule_R13, "R14": rule_R14, "R2set": rule_R2set, "R8first": rule_R8first, "R7": rule_R7, "R10": rule_R10, "R11": rule_R11,
 }
 ALWAYS = [rule_vis, rule_tracing, rule_const]
@@ -825,11 +947,12 @@ def build_fn(src: Source, selector, opts, sections, emitter: Emitter, unit_rules
             if not m_:
                 raise ExtractError("SelfItem needs a trait-impl selector")
             bl = src.find_impl(m_.group(1), m_.group(2))
-            tm = re.search(r"\btype\s+Item\s*=\s*([^;]*);", src.text[bl[0][2]:bl[0][3]])
-            if not tm:
-                raise ExtractError("SelfItem: no `type Item` in the impl (lost anchor)")
-            text, n_ = _sub_masked(text, r"\bSelf::Item\b", lambda m, s, t=tm.group(1).strip(): t)
-            applied.append(f"SelfItem({tm.group(1).strip()})x{n_}")
+            assoc = {a: t_.strip() for a, t_ in re.findall(r"\btype\s+(\w+)\s*=\s*([^;]*);", src.text[bl[0][2]:bl[0][3]])}
+            if not assoc:
+                raise ExtractError("SelfItem: no associated type in the impl (lost anchor)")
+            for a_, t_ in assoc.items():
+                text, n_ = _sub_masked(text, r"\bSelf::" + a_ + r"\b", lambda m, s, t=t_: t)
+                applied.append(f"SelfItem({a_}={t_})x{n_}")
             kind = "inherent"
             continue
         rname, _, rarg = rn.partition(":")
@@ -961,7 +1084,8 @@ def build_item(src: Source, kind, name, opts, emitter: Emitter):
     for r in ALWAYS:
         text = r(text, applied)
     for rn in opts.get("rules", []):
-        text = RULES[rn](text, applied)
+        rname, _, rarg = rn.partition(":")
+        text = RULES[rname](text, applied, rarg) if rarg else RULES[rname](text, applied)
     if kind in ("struct", "enum"):
         # all fields public so that contracts may mention them (DESIGN 2.1)
         m_text = mask(text)
@@ -994,6 +1118,8 @@ def build_item(src: Source, kind, name, opts, emitter: Emitter):
                     ds.append(extra)
         if ds:
             emitter.emit("#[derive(" + ", ".join(ds) + ")]")
+        for tp in opts.get("rrt", []):
+            emitter.emit(f"#[verifier::reject_recursive_types({tp})]")
     gen_start = len(emitter.lines)
     emitter.emit(text, (src.rel, first_line))
     emitter.items.append({
@@ -1018,7 +1144,7 @@ def parse_opts(tokens):
     for t in tokens:
         if "=" in t:
             k, v = t.split("=", 1)
-            if k in ("rules", "derive", "keep"):
+            if k in ("rules", "derive", "keep", "rrt"):
                 opts[k] = [x for x in v.split(",") if x]
             else:
                 opts[k] = v
